@@ -714,9 +714,15 @@ Definition d_c8cfg (x : xval) : option c8cfg :=
 
 Definition c8_state0 (cfg : c8cfg) : c8_state := ([], repeat 0 (length (cf_handlers (c8_base cfg)) + 8)).
 
+(** the request's content-length as [get_body_length_request] sees it: CONNECT and TRACE carry no body whatever
+    they declare (as GET / HEAD / OPTIONS, which [body_length] knows by their method codes) *)
+Definition c8_content_length (q : c8req) : option bytes :=
+  if starts_with (B "TRACE ") (q_raw_head q) || starts_with (B "CONNECT ") (q_raw_head q) then None
+  else header s_content_length (q_req q).
+
 Definition c8_run_hs (drain head_rule : bool) (cfg : c8cfg) (hs : list (hreq c8req))
   : list (option sent) * cstate :=
-  conn_run c8req c8_state (fun q => rq_method (q_req q)) (fun q => header s_content_length (q_req q))
+  conn_run c8req c8_state (fun q => rq_method (q_req q)) c8_content_length
            (fun q => negb (q_nohost q)) q_raw_head
            (fun st q => c8_app cfg st (q_req q)) hardcoded_error_body (fun _ h => h) TOO_MANY drain head_rule
            (c8_state0 cfg) (Open []) hs.
@@ -816,7 +822,7 @@ Definition c8_politeb (h : hreq c8req) : bool :=
   negb (q_nohost (h_q c8req h))
   && match h_action c8req h with ADrop => false | _ => true end
   && (N.of_nat (length (h_body c8req h))
-      =? body_length (rq_method (q_req (h_q c8req h))) (header s_content_length (q_req (h_q c8req h)))).
+      =? body_length (rq_method (q_req (h_q c8req h))) (c8_content_length (h_q c8req h))).
 (** every request of the history is polite and every reply of the application along it is [reply_ok] *)
 Fixpoint c8_hyps (cfg : c8cfg) (st : c8_state) (hs : list (hreq c8req)) : bool :=
   match hs with
